@@ -68,6 +68,12 @@ type Op struct {
 	Nonce  string
 	Method string // "" = no challenge | "S256" | "plain"
 	Chal   string
+	// authorize: id_token_hint ("" none | "valid" | "expired" | "bad" = does not verify) for HintSub,
+	// prompt values, max_age (not in the model: it has no effect on these flows)
+	Hint    string
+	HintSub string
+	Prompt  []string
+	MaxAge  string
 	// login / callback
 	Req   int
 	Sub   string
@@ -115,7 +121,15 @@ func (o Op) Coq() string {
 		if o.Method != "" {
 			ch = emit.Some(emit.Pair(emit.Bool(o.Method == "S256"), emit.Str(o.Chal)))
 		}
-		t = emit.Ctor("Authorize", emit.Str(o.Client), emit.Str(o.URI), emit.StrList(o.Scopes), emit.Str(o.Nonce), ch)
+		hint := emit.None
+		switch o.Hint {
+		case "valid", "expired":
+			hint = emit.Some(emit.Some(emit.Str(o.HintSub)))
+		case "bad":
+			hint = emit.Some(emit.None)
+		}
+		t = emit.Ctor("Authorize", emit.Str(o.Client), emit.Str(o.URI), emit.StrList(o.Scopes), emit.Str(o.Nonce), ch,
+			"{| x_hint := "+hint+"; x_prompt := "+emit.StrList(o.Prompt)+" |}")
 	case "login":
 		t = emit.Ctor("Login", emit.Nat(o.Req), emit.Str(o.Sub), emit.Nat(o.Stamp))
 	case "callback":
@@ -192,6 +206,38 @@ type Options struct {
 	NoPost, NoPKJWT, NoRefresh bool
 	DropRefresh                string // client that loses the refresh_token grant ("" = none)
 	DropCode                   string // client that loses the authorization_code grant
+	LiveGrants                 bool   // the storage hands out the live refresh grant (refstore ext_c07.go)
+}
+
+// IDTokenHint mints an ID token of the provider (signed with its key) for sub / aud.
+// kind: "valid" | "expired" (accepted as a hint all the same) | "bad" (wrong signing key).
+func IDTokenHint(sub, aud, kind string) string {
+	key := opfix.ECKey("op-signing")
+	now := time.Now()
+	claims := map[string]any{"iss": opfix.Issuer, "sub": sub, "aud": []string{aud}, "azp": aud,
+		"iat": now.Add(-time.Minute).Unix(), "exp": now.Add(time.Hour).Unix(), "auth_time": now.Add(-2 * time.Minute).Unix()}
+	switch kind {
+	case "expired":
+		claims["iat"] = now.Add(-3 * time.Hour).Unix()
+		claims["exp"] = now.Add(-2 * time.Hour).Unix()
+		claims["auth_time"] = now.Add(-3 * time.Hour).Unix()
+	case "bad":
+		key = opfix.ECKey("rogue")
+	}
+	sg, err := jose.NewSigner(jose.SigningKey{Algorithm: jose.ES256, Key: &jose.JSONWebKey{Key: key, KeyID: opfix.DefaultSigning().KID}}, nil)
+	if err != nil {
+		panic(err)
+	}
+	b, _ := json.Marshal(claims)
+	sig, err := sg.Sign(b)
+	if err != nil {
+		panic(err)
+	}
+	out, err := sig.CompactSerialize()
+	if err != nil {
+		panic(err)
+	}
+	return out
 }
 
 const authBase = 1_600_000_000 // auth_time of login stamp k is authBase + k
@@ -252,6 +298,7 @@ func NewWorld(o Options) (*World, error) {
 	if c, ok := st.Clients[o.DropCode]; ok {
 		c.Grants = without(c.Grants, oidc.GrantTypeCode)
 	}
+	st.SetLiveRefreshGrants(o.LiveGrants)
 	f, err := opfix.New(st, opfix.Options{NoPost: o.NoPost, NoPKJWT: o.NoPKJWT, NoRefresh: o.NoRefresh})
 	if err != nil {
 		return nil, err
@@ -534,6 +581,15 @@ func (w *World) Exec(o Op) Out {
 		if o.Method != "" {
 			q.Set("code_challenge", o.Chal)
 			q.Set("code_challenge_method", o.Method)
+		}
+		if o.Hint != "" {
+			q.Set("id_token_hint", IDTokenHint(o.HintSub, o.Client, o.Hint))
+		}
+		if len(o.Prompt) > 0 {
+			q.Set("prompt", strings.Join(o.Prompt, " "))
+		}
+		if o.MaxAge != "" {
+			q.Set("max_age", o.MaxAge)
 		}
 		resp, id := w.F.Authorize(o.Router, q)
 		if resp.Panic != "" {
